@@ -96,7 +96,7 @@ Seed(k, td) ==
     [mods |-> << Mod("M", td, <<>>, <<
        Asg("Top", TSeq(<< Def("b", Ref("Bo"), FALSE), Opt("i", TIntR(0, 255)), Def("e", Ref("En"), "c"),
                           Opt("t", Ref("Tn")),
-                          Mand("m", TSeq(<< Mand("u", TNull), Def("v", Ref("Bo"), TRUE) >>)),
+                          Mand("m", TSeq(<< Mand("u", TNull), Def("v", Ref("Bo"), FALSE) >>)),
                           Opt("n", Ref("Pt")), Mand("z", TOcts) >>)),
        Asg("Pt", TSeq(<< Mand("p", TBool), Opt("q", TInt) >>)),
        Asg("Bo", TBool), Asg("En", Enum3), Asg("Tn", Tg(TIntR(0, 255), "C", 5, "D")) >>) >>]
@@ -125,7 +125,7 @@ Seed(k, td) ==
                  Mod("Bm", OtherTd(td), <<>>, <<
                    Asg("Aux", TBool),
                    Asg("Bt", TSeq(<< Mand("p", Ref("Aux")), Opt("q", TChoice(<< Alt("m", TNull), Alt("n", TIntR(0, 255)) >>)),
-                                     Def("r", Ref("Aux"), TRUE) >>)),
+                                     Def("r", Ref("Aux"), FALSE) >>)),
                    Asg("Cu", TSeq(<< Mand("g", TBool), Opt("h", TChoice(<< Alt("m", TNull), Alt("n", TIntR(0, 255)) >>)) >>)),
                    Asg("En", Enum3) >>) >>]
    [] k = 6 ->    \* COMPONENTS OF across two modules with the same tag default; extension marker in the source
@@ -137,7 +137,7 @@ Seed(k, td) ==
    [] k = 7 ->    \* COMPONENTS OF inside one module, source components with references; SET, SET OF
     [mods |-> << Mod("M", td, <<>>, <<
        Asg("Fl", TBool),
-       Asg("Ba", TSeq(<< Mand("p", Cx(TOcts, 0)), Def("q", Cx(Ref("Fl"), 1), TRUE) >>)),
+       Asg("Ba", TSeq(<< Mand("p", Cx(TOcts, 0)), Def("q", Cx(Ref("Fl"), 1), FALSE) >>)),
        Asg("Wr", TSeq(<< CompOf("Ba"), Mand("z", Cx(TIntR(0, 255), 2)) >>)),
        Asg("Top", TSet(<< Mand("s", Cx(Ref("Wr"), 0)), Opt("f", Cx(Ref("Fl"), 1)),
                           Mand("g", Cx(TOf("SETOF", Ref("Fl"), NoSz), 2)) >>)) >>) >>]
